@@ -17,6 +17,8 @@ pub enum Op {
     BeginAtomic,
     /// commit: pop the auxiliary stack and discard the alternatives created since
     EndAtomic,
+    /// write every slot (ascending) with this value: one frame with a long undo log
+    Burst(usize),
 }
 
 /// Whole-state-copy reference: every alternative stores a full copy of the slots and of the
@@ -57,13 +59,27 @@ impl Hash for St {
 }
 
 pub struct VmModel {
+    /// number of (logical) slots
     pub slots: usize,
     pub values: usize,
     /// states reached by this many operations are checked but not expanded
     pub max_ops: u32,
+    /// real slot index of every logical slot (dense 0..slots by default; sparse indices such as
+    /// [0, 64] look for slots that an implementation confuses, e.g. through a bit mask)
+    pub slot_ids: Vec<usize>,
+    /// how many of the logical slots get individual Save operations
+    pub single: usize,
+    /// offer Burst operations
+    pub burst: bool,
 }
 
 impl VmModel {
+    pub fn dense(slots: usize, values: usize, max_ops: u32) -> VmModel {
+        VmModel { slots, values, max_ops, slot_ids: (0..slots).collect(), single: slots, burst: false }
+    }
+    pub fn real_slots(&self) -> usize {
+        self.slot_ids.iter().max().map(|m| m + 1).unwrap_or(0)
+    }
     pub fn apply(&self, st: &St, op: &Op) -> St {
         let mut n = st.clone();
         if n.bad.is_some() {
@@ -86,8 +102,14 @@ impl VmModel {
                 }
             }
             Op::Save(slot, v) => {
-                n.vm.save(slot, v);
+                n.vm.save(self.slot_ids[slot], v);
                 n.refm.slots[slot] = v;
+            }
+            Op::Burst(v) => {
+                for slot in 0..self.slots {
+                    n.vm.save(self.slot_ids[slot], v);
+                    n.refm.slots[slot] = v;
+                }
             }
             Op::BeginAtomic => {
                 let c = n.vm.backtrack_count();
@@ -108,9 +130,18 @@ impl VmModel {
         }
         if bad.is_none() {
             for i in 0..self.slots {
-                if n.vm.get(i) != n.refm.slots[i] {
-                    bad = Some(format!("after {:?}: slot {} is {} but must be {}", op, i, n.vm.get(i) as i64, n.refm.slots[i] as i64));
+                if n.vm.get(self.slot_ids[i]) != n.refm.slots[i] {
+                    bad = Some(format!("after {:?}: slot {} is {} but must be {}", op, self.slot_ids[i], n.vm.get(self.slot_ids[i]) as i64, n.refm.slots[i] as i64));
                     break;
+                }
+            }
+            if bad.is_none() && self.real_slots() > self.slots {
+                // slots the model never writes must stay unset
+                for r in 0..self.real_slots() {
+                    if !self.slot_ids.contains(&r) && n.vm.get(r) != usize::MAX {
+                        bad = Some(format!("after {:?}: slot {} was never written but holds {}", op, r, n.vm.get(r)));
+                        break;
+                    }
                 }
             }
             if bad.is_none() && n.vm.backtrack_count() != n.refm.stack.len() {
@@ -126,9 +157,14 @@ impl VmModel {
             return;
         }
         // simplest first, so that the first counterexample is also the shortest
-        for s in 0..self.slots {
+        for s in 0..self.single.min(self.slots) {
             for v in 1..=self.values {
                 out.push(Op::Save(s, v));
+            }
+        }
+        if self.burst {
+            for v in 1..=self.values {
+                out.push(Op::Burst(v));
             }
         }
         // (pc, ix) take the depth of the stack so that a wrong pop is visible
@@ -144,7 +180,7 @@ impl VmModel {
     }
 
     pub fn init(&self) -> St {
-        St { vm: VmState::new(self.slots), refm: RefState { slots: vec![usize::MAX; self.slots], aux: vec![], stack: vec![] }, bad: None, depth: 0 }
+        St { vm: VmState::new(self.real_slots()), refm: RefState { slots: vec![usize::MAX; self.slots], aux: vec![], stack: vec![] }, bad: None, depth: 0 }
     }
 }
 
